@@ -12,7 +12,7 @@ writes the literal `null`; for the finite classes no path writes `null`.  Nothin
 cannot be decided in the class domain and the verdict depends on it, the analysis is broken (exit 2), not a violation.
 """
 import math
-from ..facts import AnalysisBroken, strip_casts, callee_name, expr_str, const_val, walk
+from ..facts import AnalysisBroken, strip_casts, callee_name, expr_str, const_val, walk, ASSIGN_OPS
 
 CLASSES = ('nan', 'pinf', 'ninf', 'pos', 'neg', 'zero')
 ALLC = frozenset(CLASSES)
@@ -446,12 +446,19 @@ def _envkey(env):
     return tuple(sorted((str(k), repr(v)) for k, v in env.items()))
 
 
-def _literal_args(c):
+def _literal_args(c, fn=None):
     out = []
     for a in c['args']:
         a0 = strip_casts(a)
         if a0.get('k') == 'str':
             out.append(bytes(a0['bytes']).split(b'\0')[0])
+        elif a0.get('k') == 'ref' and fn is not None:
+            # a constant array spelled as a string literal (static const char word[] = "null")
+            for d in fn.locals():
+                if d.get('d') == a0.get('d') and 'init' in d and strip_casts(d['init']).get('k') == 'str' and \
+                        not any(x.get('k') == 'bin' and x['op'] in ASSIGN_OPS and any(
+                            y.get('k') == 'ref' and y.get('d') == d['d'] for y in walk(x['l'])) for x in fn.nodes()):
+                    out.append(bytes(strip_casts(d['init'])['bytes']).split(b'\0')[0])
     return out
 
 
@@ -470,7 +477,7 @@ def num1(units, R):
         for c in walk(root):
             if c.get('k') != 'call':
                 continue
-            lits = _literal_args(c)
+            lits = _literal_args(c, fn)
             if b'null' in lits:
                 null_nodes.add(n.id)
             elif any(b'%' in l for l in lits) and callee_name(c) in ('sprintf', 'snprintf', '__builtin___sprintf_chk', '__sprintf_chk',
